@@ -52,12 +52,28 @@ class Gen:
         self.big = big
         self.questions = []  # dicts in document order
         self.sections = []
+        self.names = []
 
     def name(self, prefix):
+        """Names are unique.  A share of them is *prefix-related* to an earlier element of any kind (a repeat
+        `r3` next to a question `r3_x` / `r3s` / `r32`, a question extending a group's name, …): code that
+        compares xpaths as raw strings instead of by segment confuses such neighbours."""
         self.n += 1
         r = self.rng.random()
+        if self.names and r < 0.22:
+            base = self.rng.choice(self.names)
+            for suffix in self.rng.sample(["_x", "s", "2", "_count", ".z", "-y", "_" + str(self.n), "x", "0"], 9):
+                cand = base + suffix
+                if cand not in self.names:
+                    self.names.append(cand)
+                    return cand
         suffix = "" if r < 0.8 else self.rng.choice(["_x", "-y", ".z", "_count", "_other"])
-        return f"{prefix}{self.n}{suffix}"
+        nm = f"{prefix}{self.n}{suffix}"
+        while nm in self.names:
+            self.n += 1
+            nm = f"{prefix}{self.n}{suffix}"
+        self.names.append(nm)
+        return nm
 
     def default_text(self, ref_names):
         rng = self.rng
